@@ -595,3 +595,38 @@ theorem applyFilter_unary_nil {name : Bytes} {f : List GoVal → R GoVal} {v : G
   · simp at hs
 
 end ArrF
+
+namespace ArrF
+
+theorem sig_sort : lookupSig (bn "sort") = some ⟨bn "sort", [.val .anys, .val .any], false⟩ := by decide +kernel
+theorem sig_concat : lookupSig (bn "concat") = some ⟨bn "concat", [.val .anys, .val .anys], false⟩ := by decide +kernel
+
+/-- `{{ a | sort }}` through the call layer: the missing key argument is the zero value nil -/
+theorem applyFilter_sort {recv : GoVal} {ys : List GoVal} (hn : recv ≠ .nil)
+    (hc : convert recv .anys = .ok (.slice .any ys)) (hh : homog ys = true) (hl : ys.length ≤ 12) :
+    applyFilter (lookupImpl stdFilterImpls) (bn "sort") recv [] = .ok (.slice .any (sortF ys)) := by
+  unfold applyFilter
+  simp only [sig_sort, List.length_cons, List.length_nil]
+  have hca : convertArgs [.val .anys, .val .any] [recv] = .ok [.val (.slice .any ys), .val .nil] := by
+    cases recv <;> simp_all [convertArgs, Res.bind, ParamTy.zero]
+  have hlen : (sortF ys).length ≤ 12 := by simpa [sortF] using hl
+  have hf : sort [.slice .any ys, .nil] = .ok (.slice .any (sortF ys)) := by
+    simp [sort, sortWith, hh, stableEnough, hlen]
+  have he := eager_ok (f := sort) (vs := [.slice .any ys, .nil]) hf
+  simp only [List.map] at he
+  simp [hca, impl_sort, Res.bind, he, ret, bytesToString]
+
+/-- `{{ a | concat: b }}` through the call layer -/
+theorem applyFilter_concat {recv arg : GoVal} {xs ys : List GoVal} (hn : recv ≠ .nil) (hn' : arg ≠ .nil)
+    (hc : convert recv .anys = .ok (.slice .any xs)) (hc' : convert arg .anys = .ok (.slice .any ys)) :
+    applyFilter (lookupImpl stdFilterImpls) (bn "concat") recv [arg] = .ok (.slice .any (xs ++ ys)) := by
+  unfold applyFilter
+  simp only [sig_concat, List.length_cons, List.length_nil]
+  have hca : convertArgs [.val .anys, .val .anys] [recv, arg] = .ok [.val (.slice .any xs), .val (.slice .any ys)] := by
+    cases recv <;> cases arg <;> simp_all [convertArgs, Res.bind]
+  have hf : concat [.slice .any xs, .slice .any ys] = .ok (.slice .any (xs ++ ys)) := rfl
+  have he := eager_ok (f := concat) (vs := [.slice .any xs, .slice .any ys]) hf
+  simp only [List.map] at he
+  simp [hca, impl_concat, Res.bind, he, ret, bytesToString]
+
+end ArrF
